@@ -216,6 +216,30 @@ Proof.
   rewrite P1, P2. intros [= H1 H2 H3 _]. auto.
 Qed.
 
+(* the weaker notion: mnemonic and unit survive one read (the value text may change) *)
+Definition wstable_item (k : skind) (it : hitem) : Prop :=
+  i_orig (expected_item fstr k c it) = i_orig it /\ i_unit (expected_item fstr k c it) = i_unit it.
+Definition wstable_itemb (k : skind) (it : hitem) : bool :=
+  str_eqb (i_orig (expected_item fstr k c it)) (i_orig it) && str_eqb (i_unit (expected_item fstr k c it)) (i_unit it).
+Lemma wstable_itemb_ok k it : wstable_itemb k it = true -> wstable_item k it.
+Proof.
+  unfold wstable_itemb, wstable_item. intros H. apply andb_true_iff in H as [H1 H2].
+  apply ws_str_eqb_eq in H1, H2. split; assumption.
+Qed.
+Lemma stable_weak k std it : stable_item k std it -> wstable_item k it.
+Proof. intros H. destruct (stable_fields k std it H) as (H1 & H2 & _). split; assumption. Qed.
+Lemma Forall_stable_weak k std items : Forall (stable_item k std) items -> Forall (wstable_item k) items.
+Proof. intros H. eapply Forall_impl; [|exact H]. intros it. apply stable_weak. Qed.
+
+(* what is read back from an item depends on what the item prints only *)
+Lemma expected_pm k a b : pm fstr a = pm fstr b -> expected_item fstr k c a = expected_item fstr k c b.
+Proof.
+  unfold pm, expected_item. intros H. injection H as H1 H2 H3 H4. rewrite H1, H2, H3, H4. reflexivity.
+Qed.
+
+Lemma meta_pm a b : meta a = meta b -> pm fstr a = pm fstr b.
+Proof. unfold meta, pm. intros H. injection H as H1 H2 H3 H4. rewrite H1, H2, H3, H4. reflexivity. Qed.
+
 (* ====================================================================================== *)
 (* the second write                                                                        *)
 (* ====================================================================================== *)
@@ -235,10 +259,9 @@ Hypothesis HlC : l_curves l = mksect (reb KCurves AC) tr.
 Hypothesis HlP : l_params l = mksect (reb KParameter AP) tr.
 
 (* the domain *)
-Hypothesis StV : Forall (stable_item KVersion false) AV.
-Hypothesis StW : Forall (stable_item KWell true) AW.
-Hypothesis StC : Forall (stable_item KCurves false) AC.
-Hypothesis StP : Forall (stable_item KParameter true) AP.
+Hypothesis WV : Forall (wstable_item KVersion) AV.
+Hypothesis WW : Forall (wstable_item KWell) AW.
+Hypothesis WC : Forall (wstable_item KCurves) AC.
 
 Variables wit vit : hitem.
 Hypothesis HcW : filter (in_class c k_wrap) AV = [wit].
@@ -309,27 +332,29 @@ Qed.
 Lemma num_space : num (s2l "SPACE") = VStr (s2l "SPACE").
 Proof. vm_compute. reflexivity. Qed.
 
-(* the ~Version items written the second time print like those written the first time *)
+Lemma num_two_zero : num (s2l "2.0") = VFloat (s2l "2.0") /\ num (s2l "1.2") = VFloat (s2l "1.2").
+Proof. split; vm_compute; reflexivity. Qed.
+
+(* the ~Version items written the second time print like the ~Version items read back: the DLM
+   and VERS substitutions change nothing on them *)
 Lemma second_vsw :
-  map (pm fstr) (vsw_of (hs_version hs) tr (l_version l)) = map (pm fstr) AV.
+  map (pm fstr) (vsw_of (hs_version hs) tr (l_version l)) = map (pm fstr) (reb KVersion AV).
 Proof.
   set (f := fun it : hitem => set_value it (VStr (s2l "SPACE"))).
-  assert (Hbase : map (pm fstr) (reb KVersion AV) = map (pm fstr) AV).
-  { rewrite <- (map_post_false (reb KVersion AV)). apply (stable_section KVersion false AV _ StV), reb_meta. }
   destruct (reb_find KVersion k_vers AV vit key_plain_vers HcV) as (pV & HpV & HnV & HcntV).
   (* the DLM step *)
-  assert (Hvc : exists X, vcopy_of tr (l_version l) = X /\ map (pm fstr) X = map (pm fstr) AV /\
+  assert (Hvc : exists X, vcopy_of tr (l_version l) = X /\ map (pm fstr) X = map (pm fstr) (reb KVersion AV) /\
                           fidx tr k_vers X = Some pV /\ count_matching tr k_vers X = 1%nat /\
                           (forall x, nth_error X pV = Some x -> x = expected_item fstr KVersion c vit)).
   { unfold vcopy_of. rewrite HlV. cbn [s_items]. fold k_dlm. fold f. rewrite update_first_upd.
     unfold dlm_ok in Hdlm. fold k_dlm in Hdlm.
     destruct (filter (in_class c k_dlm) AV) as [|dit [|d2 r]] eqn:Ed; [| |contradiction].
     - rewrite (reb_absent KVersion k_dlm AV key_plain_dlm Ed). eexists. split; [reflexivity|].
-      split; [exact Hbase|]. split; [exact HpV|]. split; [exact HcntV|].
+      split; [reflexivity|]. split; [exact HpV|]. split; [exact HcntV|].
       intros x Hx. rewrite HnV in Hx. injection Hx as <-. reflexivity.
     - destruct (reb_find KVersion k_dlm AV dit key_plain_dlm Ed) as (pD & HpD & HnD & _). rewrite HpD.
       eexists. split; [reflexivity|]. split; [|split; [|split]].
-      + rewrite map_pm_upd; [exact Hbase|]. intros x Hx. rewrite HnD in Hx. injection Hx as <-.
+      + rewrite map_pm_upd; [reflexivity|]. intros x Hx. rewrite HnD in Hx. injection Hx as <-.
         unfold f, pm, set_value, expected_item, new_item. cbn [i_orig i_unit i_value i_descr vstr].
         rewrite Hdlm, (read_value_text_version _ _ num_space). reflexivity.
       + rewrite fidx_upd by (intro; reflexivity). exact HpV.
@@ -339,36 +364,47 @@ Proof.
           rewrite k_vers_dlm in X. discriminate.
         * rewrite HnV. intros [= <-]. reflexivity. }
   destruct Hvc as (X & HX & HpmX & HfX & HcX & HnX).
-  assert (Hnew : forall new, meta vit = meta new -> i_orig new = k_vers ->
-            map (pm fstr) (set_item tr k_vers new X) = map (pm fstr) AV).
-  { intros new Hm Ho.
+  assert (Hin : In vit AV) by (apply (in_cls k_vers AV vit HcV)).
+  rewrite Forall_forall in WV. destruct (WV vit Hin) as (WO & WU).
+  assert (Hnew : forall new lit, meta vit = meta new -> new = new_item k_vers [] (VFloat lit) (i_descr new) ->
+            fstr lit = lit -> num lit = VFloat lit ->
+            map (pm fstr) (set_item tr k_vers new X) = map (pm fstr) (reb KVersion AV)).
+  { intros new lit Hm Hn Hfl Hnl.
+    assert (Ho : i_orig new = k_vers) by (rewrite Hn; reflexivity).
     assert (Hu : useful (i_orig new) = k_vers) by (rewrite Ho; reflexivity).
     rewrite (set_item_at tr k_vers new X pV HfX).
     - rewrite map_pm_upd; [exact HpmX|]. intros x Hx. rewrite (HnX x Hx).
-      assert (Hin : In vit AV) by (apply (in_cls k_vers AV vit HcV)).
-      rewrite Forall_forall in StV. pose proof (StV vit Hin) as Hst. unfold stable_item, post in Hst. rewrite Hst.
-      unfold pm. injection Hm as -> -> -> ->. reflexivity.
+      assert (Mo : i_orig vit = k_vers) by (unfold meta in Hm; injection Hm as -> _ _ _; exact Ho).
+      assert (Mu : i_unit vit = []) by (unfold meta in Hm; injection Hm as _ -> _ _; rewrite Hn; reflexivity).
+      assert (Mv : i_value vit = VFloat lit) by (unfold meta in Hm; injection Hm as _ _ -> _; rewrite Hn; reflexivity).
+      assert (Md : i_descr vit = i_descr new) by (unfold meta in Hm; injection Hm as _ _ _ ->; reflexivity).
+      unfold pm. rewrite WO, WU. unfold expected_item, new_item. cbn [i_orig i_unit i_value i_descr].
+      rewrite Mo, Mu, Mv, Md. cbn [vstr]. rewrite Hfl.
+      assert (Er : read_value KVersion k_vers lit = VFloat lit) by (unfold read_value; cbn; exact Hnl).
+      rewrite Er. cbn [vstr]. rewrite Hfl.
+      assert (No : i_unit new = [] /\ i_value new = VFloat lit) by (rewrite Hn; split; reflexivity).
+      destruct No as (N2 & N3). rewrite Ho, N2, N3. cbn [vstr]. rewrite Hfl. reflexivity.
     - intros x Hx. rewrite (HnX x Hx), Hu.
-      assert (Hin : In vit (filter (in_class c k_vers) AV)) by (rewrite HcV; left; reflexivity).
-      apply filter_In in Hin as [_ Hc]. exact Hc.
+      assert (Hin' : In vit (filter (in_class c k_vers) AV)) by (rewrite HcV; left; reflexivity).
+      apply filter_In in Hin' as [_ Hc]. exact Hc.
     - rewrite Hu, HcX. apply le_n. }
-  pose proof vers_item_meta as Hvm.
+  pose proof vers_item_meta as Hvm. destruct Hfv as (F12 & F20). destruct num_two_zero as (N20 & N12).
   unfold vsw_of. rewrite HX. fold k_vers.
   destruct Hstd as [Hv|Hv]; rewrite Hv in *; cbn [las_version_eqb] in *.
-  - apply (Hnew _ Hvm). reflexivity.
-  - apply (Hnew _ Hvm). reflexivity.
+  - apply (Hnew _ (s2l "1.2") Hvm); [reflexivity|exact F12|exact N12].
+  - apply (Hnew _ (s2l "2.0") Hvm); [reflexivity|exact F20|exact N20].
 Qed.
 
 (* -- ~Well: the refresh leaves l alone ------------------------------------------------------------ *)
 Lemma su_same u x : i_unit x = u -> su u x = x.
 Proof. destruct x. unfold su, set_unit. cbn. intros ->. reflexivity. Qed.
 
-Lemma reb_unit k std items x p : Forall (stable_item k std) items -> In x items ->
+Lemma reb_unit k items x p : Forall (wstable_item k) items -> In x items ->
   nth_error (reb k items) p = Some (expected_item fstr k c x) ->
   forall y, nth_error (reb k items) p = Some y -> i_unit y = i_unit x.
 Proof.
   intros Hst Hin Hn y Hy. rewrite Hn in Hy. injection Hy as <-.
-  rewrite Forall_forall in Hst. destruct (stable_fields k std x (Hst x Hin)) as (_ & Hu & _). exact Hu.
+  rewrite Forall_forall in Hst. destruct (Hst x Hin) as (_ & Hu). exact Hu.
 Qed.
 
 Lemma second_curves_head : exists b0 brest, reb KCurves AC = b0 :: brest /\ i_unit b0 = i_unit c0.
@@ -378,7 +414,7 @@ Proof.
   exists b0, brest. split; [reflexivity|].
   assert (M : meta b0 = meta (expected_item fstr KCurves c c0)) by (exact (f_equal (hd (meta b0)) Hm)).
   assert (Hin : In c0 AC) by (rewrite HC0; left; reflexivity).
-  rewrite Forall_forall in StC. destruct (stable_fields KCurves false c0 (StC c0 Hin)) as (_ & Hu & _).
+  rewrite Forall_forall in WC. destruct (WC c0 Hin) as (_ & Hu).
   rewrite <- Hu. unfold meta in M. injection M as _ M2 _ _. exact M2.
 Qed.
 
@@ -390,9 +426,9 @@ Proof.
   destruct second_curves_head as (b0 & brest & HB & Hub).
   rewrite refresh_eq. cbv zeta. cbn [m_las]. rewrite Hneed, HlW. cbn [s_items s_transforms].
   rewrite HpS, HpP, HpE. f_equal.
-  pose proof (reb_unit KWell true AW sit nS StW (in_cls k_strt AW sit HcS) HnS) as US.
-  pose proof (reb_unit KWell true AW pit nP StW (in_cls k_stop AW pit HcP) HnP) as UP.
-  pose proof (reb_unit KWell true AW eit nE StW (in_cls k_step AW eit HcE) HnE) as UE.
+  pose proof (reb_unit KWell AW sit nS WW (in_cls k_strt AW sit HcS) HnS) as US.
+  pose proof (reb_unit KWell AW pit nP WW (in_cls k_stop AW pit HcP) HnP) as UP.
+  pose proof (reb_unit KWell AW eit nE WW (in_cls k_step AW eit HcE) HnE) as UE.
   assert (Hu : unit_of l nS = i_unit c0).
   { unfold unit_of, c0unit_of. rewrite HlC, HlW. cbn [s_items]. rewrite HB, Hub, HnS.
     rewrite (US _ HnS), HuS. destruct (i_unit c0); reflexivity. }
@@ -413,39 +449,76 @@ Proof. reflexivity. Qed.
 Lemma norm_curves l0 : l_curves (norm_las fzero l0) = l_curves l0.
 Proof. reflexivity. Qed.
 
-(* C11, second cycle, header side: the same lines, flag and version; l (normalised) stays *)
+Lemma section_lines_some v sect a la b :
+  section_lines fstr v sect a = Some la -> exists lb, section_lines fstr v sect b = Some lb.
+Proof.
+  unfold section_lines. destruct (lookup_order_entry v sect order_definitions); [|discriminate].
+  intros _. eexists. reflexivity.
+Qed.
+
+(* C11, second cycle, header side, in general: write_sections applied to the object read back
+   succeeds with the same wrap flag and version and leaves l (values normalised) in memory; the
+   ~Version items it writes print like those read back *)
+Theorem second_write_sections_gen :
+  exists vsw2 lv2 lw2 lc2 lp2,
+    write_sections fmtv fmt_diff fstr fzero numeq ver wrapo ifmt (mkmlas l ii) =
+    Some (mkhs (hs_wrap hs) (hs_version hs) vsw2 lv2 lw2 lc2 lp2 (norm_las fzero l)) /\
+    map (pm fstr) vsw2 = map (pm fstr) (reb KVersion AV) /\
+    section_lines fstr (hs_version hs) (s2l "Version") vsw2 = Some lv2 /\
+    section_lines fstr (hs_version hs) (s2l "Well") (map (post true) (reb KWell AW)) = Some lw2 /\
+    section_lines fstr (hs_version hs) (s2l "Curves") (reb KCurves AC) = Some lc2 /\
+    section_lines fstr (hs_version hs) (s2l "Parameter") (map (post true) (reb KParameter AP)) = Some lp2.
+Proof.
+  destruct (write_sections_lines fmtv fmt_diff fstr fzero numeq ver wrapo ifmt m hs Hs) as (Lv & Lw & Lc & Lp).
+  destruct (section_lines_some _ _ _ _ (vsw_of (hs_version hs) tr (l_version l)) Lv) as (lv2 & Lv2).
+  destruct (section_lines_some _ _ _ _ (map (post true) (reb KWell AW)) Lw) as (lw2 & Lw2).
+  destruct (section_lines_some _ _ _ _ (reb KCurves AC) Lc) as (lc2 & Lc2).
+  destruct (section_lines_some _ _ _ _ (map (post true) (reb KParameter AP)) Lp) as (lp2 & Lp2).
+  exists (vsw_of (hs_version hs) tr (l_version l)), lv2, lw2, lc2, lp2.
+  split; [|split; [exact second_vsw|split; [exact Lv2|split; [exact Lw2|split; [exact Lc2|exact Lp2]]]]].
+  rewrite write_sections_eq. cbn [m_las m_index_initial]. rewrite second_wstep. cbv zeta.
+  assert (Et : s_transforms (l_version l) = tr) by (rewrite HlV; reflexivity). rewrite Et.
+  rewrite second_vers, second_refresh, Lv2.
+  rewrite norm_well_items, norm_params_items, norm_curves, HlW, HlP, HlC. cbn [s_items].
+  rewrite Lw2, Lc2, Lp2. reflexivity.
+Qed.
+
+(* ... and on the domain where every item is stable (value text included): the SAME lines *)
 Theorem second_write_sections :
+  Forall (stable_item KVersion false) AV -> Forall (stable_item KWell true) AW ->
+  Forall (stable_item KCurves false) AC -> Forall (stable_item KParameter true) AP ->
   exists vsw2,
     write_sections fmtv fmt_diff fstr fzero numeq ver wrapo ifmt (mkmlas l ii) =
     Some (mkhs (hs_wrap hs) (hs_version hs) vsw2 (hs_lv hs) (hs_lw hs) (hs_lc hs) (hs_lp hs) (norm_las fzero l)).
 Proof.
+  intros StV StW StC StP.
   destruct (write_sections_lines fmtv fmt_diff fstr fzero numeq ver wrapo ifmt m hs Hs) as (Lv & Lw & Lc & Lp).
-  exists (vsw_of (hs_version hs) tr (l_version l)).
-  rewrite write_sections_eq. cbn [m_las m_index_initial]. rewrite second_wstep. cbv zeta.
-  assert (Et : s_transforms (l_version l) = tr) by (rewrite HlV; reflexivity). rewrite Et.
-  rewrite second_vers, second_refresh.
-  rewrite (section_lines_pm fstr _ _ _ _ second_vsw), Lv.
-  rewrite norm_well_items, norm_params_items, norm_curves, HlW, HlP, HlC. cbn [s_items].
-  rewrite (section_lines_pm fstr _ _ _ AW (stable_section KWell true AW _ StW (reb_meta KWell AW))), Lw.
-  assert (EC : map (pm fstr) (reb KCurves AC) = map (pm fstr) AC).
-  { rewrite <- (map_post_false (reb KCurves AC)). apply (stable_section KCurves false AC _ StC), reb_meta. }
-  rewrite (section_lines_pm fstr _ _ _ AC EC), Lc.
-  rewrite (section_lines_pm fstr _ _ _ AP (stable_section KParameter true AP _ StP (reb_meta KParameter AP))), Lp.
-  reflexivity.
+  destruct second_write_sections_gen as (vsw2 & lv2 & lw2 & lc2 & lp2 & Hw2 & Hpm & Lv2 & Lw2 & Lc2 & Lp2).
+  exists vsw2. rewrite Hw2. f_equal. f_equal.
+  - assert (E : map (pm fstr) vsw2 = map (pm fstr) AV).
+    { rewrite Hpm, <- (map_post_false (reb KVersion AV)). apply (stable_section KVersion false AV _ StV), reb_meta. }
+    rewrite (section_lines_pm fstr _ _ _ _ E), Lv in Lv2. injection Lv2 as <-. reflexivity.
+  - rewrite (section_lines_pm fstr _ _ _ AW (stable_section KWell true AW _ StW (reb_meta KWell AW))), Lw in Lw2.
+    injection Lw2 as <-. reflexivity.
+  - assert (EC : map (pm fstr) (reb KCurves AC) = map (pm fstr) AC).
+    { rewrite <- (map_post_false (reb KCurves AC)). apply (stable_section KCurves false AC _ StC), reb_meta. }
+    rewrite (section_lines_pm fstr _ _ _ AC EC), Lc in Lc2. injection Lc2 as <-. reflexivity.
+  - rewrite (section_lines_pm fstr _ _ _ AP (stable_section KParameter true AP _ StP (reb_meta KParameter AP))), Lp in Lp2.
+    injection Lp2 as <-. reflexivity.
 Qed.
 
 (* the NULL text the second write prints *)
 Lemma second_null_text nit nt :
-  filter (in_class c k_null) AW = [nit] -> vstr fstr (i_value nit) = nt ->
+  filter (in_class c k_null) AW = [nit] -> stable_item KWell true nit -> vstr fstr (i_value nit) = nt ->
   las_null_text fstr (norm_las fzero l) = Some nt.
 Proof.
-  intros HcN Hnt. destruct (reb_find KWell k_null AW nit key_plain_null HcN) as (pN & HpN & HnN & _).
+  intros HcN Hst Hnt. destruct (reb_find KWell k_null AW nit key_plain_null HcN) as (pN & HpN & HnN & _).
   unfold las_null_text, item_value_by. fold k_null.
   change (s_transforms (l_well (norm_las fzero l))) with (s_transforms (l_well l)).
   rewrite norm_well_items, HlW. cbn [s_items s_transforms].
   rewrite sect_find_nth, fidx_map by (intros it; destruct (post_fields true it) as (_ & _ & _ & E); exact E).
   rewrite HpN, ws_nth_error_map, HnN. cbn [option_map]. f_equal.
-  rewrite Forall_forall in StW. destruct (stable_fields KWell true nit (StW nit (in_cls k_null AW nit HcN))) as (_ & _ & E).
+  destruct (stable_fields KWell true nit Hst) as (_ & _ & E).
   rewrite E. exact Hnt.
 Qed.
 
